@@ -7,6 +7,7 @@ import PySMT.Impl.Portfolio
 `get_model / get_value` phase.  Everything is proved by induction over `Reach`, i.e. for all schedules and
 any number of members; nothing is explored.
 -/
+set_option linter.unusedVariables false
 namespace PySMT.Portfolio
 
 /-! ### list helpers -/
@@ -97,5 +98,310 @@ theorem alive_kill_false (os : OS) (m : MSt) (h : alive m = false) : alive (kill
 theorem alive_kill (os : OS) (m : MSt) : alive (kill os m) = false := by
   cases m <;> simp [alive, kill]
   cases os.killAtomic <;> simp
+
+/-! ### preservation, one lemma per step -/
+
+
+theorem idx_lt_n {s : State} (hi : Inv cfg s) {i : Nat} {m : MSt} (h : s.ms[i]? = some m) : i < cfg.n := by
+  have := get_lt h
+  rcases hi.len with h0 | h0
+  · simp [h0] at this
+  · omega
+
+theorem afterSolve_ne_serving (i : Nat) (b : Beh) : afterSolve i b ≠ .serving := by
+  cases b <;> simp [afterSolve]
+
+theorem alive_afterSolve_answer (i : Nat) (v : Bool) : alive (afterSolve i (.answer v)) = true := rfl
+theorem alive_afterSolve_raise (i : Nat) (e : Exn) : alive (afterSolve i (.raise e)) = true := rfl
+
+theorem inv_finish (s : State) (hi : Inv cfg s) (i : Nat) (hm : s.ms[i]? = some .solving) :
+    Inv cfg { s with ms := s.ms.set i (afterSolve i (cfg.beh s.cycle i)) } := by
+  have hin := idx_lt_n cfg hi hm
+  obtain ⟨len, chan, queue, putting, wServing, wQueued, wAnswer, wRaise, kLosers, kAll, ret, await, raised⟩ := hi
+  constructor <;> simp only [] <;> try (first | assumption | grind [inSolve])
+  case putting =>
+    intro j m h
+    rcases get_set_cases hm h with ⟨rfl, h2⟩ | ⟨_, h2⟩
+    · exact truthful_afterSolve cfg _ _ hin m h2.symm
+    · exact putting j m h2
+  case wQueued =>
+    intro hp j h
+    rcases get_set_cases hm h with ⟨rfl, h2⟩ | ⟨_, h2⟩
+    · exact absurd h2.symm (afterSolve_ne_serving _ _)
+    · exact wQueued hp j h2
+  case wAnswer =>
+    intro hp j hj v hb
+    by_cases hji : j = i
+    · subst hji; exact ⟨_, get_set_eq hm, by rw [hb]; rfl⟩
+    · rw [get_set_ne (fun h => hji h.symm)]; exact wAnswer hp j hj v hb
+  case wRaise =>
+    intro hp he j hj e hb
+    by_cases hji : j = i
+    · subst hji; exact Or.inl ⟨_, get_set_eq hm, by rw [hb]; rfl⟩
+    · rw [get_set_ne (fun h => hji h.symm)]; exact wRaise hp he j hj e hb
+  case kAll =>
+    intro e k hp
+    refine ⟨(kAll e k hp).1, ?_⟩
+    intro j hj m h
+    rcases get_set_cases hm h with ⟨rfl, h2⟩ | ⟨_, h2⟩
+    · have := (kAll e k hp).2 j hj _ hm; simp [alive] at this
+    · exact (kAll e k hp).2 j hj m h2
+  case raised =>
+    intro e hp
+    refine ⟨(raised e hp).1, ?_⟩
+    intro j m h
+    rcases get_set_cases hm h with ⟨rfl, h2⟩ | ⟨_, h2⟩
+    · have := (raised e hp).2 j _ hm; simp [alive] at this
+    · exact (raised e hp).2 j m h2
+
+
+theorem afterFlush_ne_putting (m m' : Msg) : afterFlush m ≠ .putting m' := by
+  cases m <;> simp [afterFlush]
+
+theorem inv_flush (s : State) (hi : Inv cfg s) (i : Nat) (m : Msg) (hm : s.ms[i]? = some (.putting m)) :
+    Inv cfg { s with ms := s.ms.set i (afterFlush m), queue := s.queue ++ [m] } := by
+  obtain ⟨len, chan, queue, putting, wServing, wQueued, wAnswer, wRaise, kLosers, kAll, ret, await, raised⟩ := hi
+  obtain ⟨htr, hsend⟩ := putting i m hm
+  constructor <;> simp only [] <;> try (first | assumption | grind [inSolve])
+  case putting =>
+    intro j m' h
+    rcases get_set_cases hm h with ⟨rfl, h2⟩ | ⟨_, h2⟩
+    · exact absurd h2.symm (afterFlush_ne_putting _ _)
+    · exact putting j m' h2
+  case wServing =>
+    intro hp j v hmem
+    rcases List.mem_append.mp hmem with h | h
+    · have hs := wServing hp j v h
+      have hji : i ≠ j := by intro h'; subst h'; rw [hm] at hs; simp at hs
+      rw [get_set_ne hji]; exact hs
+    · simp at h; subst h
+      simp [sender] at hsend; subst hsend
+      exact get_set_eq hm
+  case wQueued =>
+    intro hp j h
+    rcases get_set_cases hm h with ⟨rfl, h2⟩ | ⟨_, h2⟩
+    · cases m with
+      | ans i' v => simp [sender] at hsend; subst hsend; exact ⟨v, by simp⟩
+      | exn i' e => simp [afterFlush] at h2
+    · obtain ⟨v, hv⟩ := wQueued hp j h2
+      exact ⟨v, List.mem_append_left _ hv⟩
+  case wAnswer =>
+    intro hp j hj v hb
+    by_cases hji : j = i
+    · subst hji
+      cases m with
+      | ans i' v' => exact ⟨_, get_set_eq hm, rfl⟩
+      | exn i' e => simp [sender] at hsend; subst hsend; simp [truthful, hb] at htr
+    · rw [get_set_ne (fun h => hji h.symm)]; exact wAnswer hp j hj v hb
+  case wRaise =>
+    intro hp he j hj e hb
+    by_cases hji : j = i
+    · subst hji
+      cases m with
+      | ans i' v' => simp [sender] at hsend; subst hsend; simp [truthful, hb] at htr
+      | exn i' e' =>
+        simp [sender] at hsend; subst hsend
+        simp [truthful, hb] at htr
+        right; simp [htr.2]
+    · rw [get_set_ne (fun h => hji h.symm)]
+      rcases wRaise hp he j hj e hb with h | h
+      · exact Or.inl h
+      · exact Or.inr (List.mem_append_left _ h)
+  case kAll =>
+    intro e k hp
+    refine ⟨(kAll e k hp).1, ?_⟩
+    intro j hj m' h
+    rcases get_set_cases hm h with ⟨rfl, h2⟩ | ⟨_, h2⟩
+    · have := (kAll e k hp).2 j hj _ hm; simp [alive] at this
+    · exact (kAll e k hp).2 j hj m' h2
+  case raised =>
+    intro e hp
+    refine ⟨(raised e hp).1, ?_⟩
+    intro j m' h
+    rcases get_set_cases hm h with ⟨rfl, h2⟩ | ⟨_, h2⟩
+    · have := (raised e hp).2 j _ hm; simp [alive] at this
+    · exact (raised e hp).2 j m' h2
+
+
+theorem inv_recvExit (s : State) (hi : Inv cfg s) (i : Nat) (cs : List Cmd) (hm : s.ms[i]? = some .serving)
+    (hc : s.ctrl = .exit :: cs) : Inv cfg { s with ms := s.ms.set i .exited, ctrl := cs } := by
+  obtain ⟨len, chan, queue, putting, wServing, wQueued, wAnswer, wRaise, kLosers, kAll, ret, await, raised⟩ := hi
+  constructor <;> simp only [] <;> try (first | assumption | grind [inSolve])
+  case raised =>
+    intro e hp
+    have := (raised e hp).2 i _ hm; simp [alive] at this
+
+theorem inv_recvQuery (s : State) (hi : Inv cfg s) (i q : Nat) (cs : List Cmd) (hm : s.ms[i]? = some .serving)
+    (hc : s.ctrl = .query q :: cs) : Inv cfg { s with ctrl := cs, reply := s.reply ++ [(i, q)] } := by
+  obtain ⟨len, chan, queue, putting, wServing, wQueued, wAnswer, wRaise, kLosers, kAll, ret, await, raised⟩ := hi
+  constructor <;> simp only [] <;> try (first | assumption | grind [inSolve])
+
+theorem inv_lateRecv (s : State) (hi : Inv cfg s) (i : Nat) (c : Cmd) (cs : List Cmd) (hm : s.ms[i]? = some .dying)
+    (hc : s.ctrl = c :: cs) : Inv cfg { s with ms := s.ms.set i .killed, ctrl := cs } := by
+  obtain ⟨len, chan, queue, putting, wServing, wQueued, wAnswer, wRaise, kLosers, kAll, ret, await, raised⟩ := hi
+  constructor <;> simp only [] <;> try (first | assumption | grind [inSolve])
+  case raised =>
+    intro e hp
+    refine ⟨(raised e hp).1, ?_⟩
+    intro j m' h
+    rcases get_set_cases hm h with ⟨rfl, h2⟩ | ⟨_, h2⟩
+    · subst h2; rfl
+    · exact (raised e hp).2 j m' h2
+
+theorem inv_getAns (s : State) (hi : Inv cfg s) (i : Nat) (v : Bool) (q : List Msg) (hp : s.p = .waiting)
+    (hq : s.queue = .ans i v :: q) : Inv cfg { s with queue := q, p := .killLosers v i 0 } := by
+  obtain ⟨len, chan, queue, putting, wServing, wQueued, wAnswer, wRaise, kLosers, kAll, ret, await, raised⟩ := hi
+  constructor <;> simp only [] <;> try (first | assumption | grind [inSolve])
+  case kLosers =>
+    intro v' w k h
+    simp at h; obtain ⟨h1, h2, h3⟩ := h; subst h1 h2 h3
+    have hmem : Msg.ans i v ∈ s.queue := by rw [hq]; exact List.mem_cons_self
+    have := queue _ hmem
+    exact ⟨this.1, this.2, wServing hp i v hmem⟩
+
+theorem inv_getExnSkip (s : State) (hi : Inv cfg s) (i : Nat) (e : Exn) (q : List Msg) (hp : s.p = .waiting)
+    (he : cfg.eoe = false) (hq : s.queue = .exn i e :: q) : Inv cfg { s with queue := q } := by
+  obtain ⟨len, chan, queue, putting, wServing, wQueued, wAnswer, wRaise, kLosers, kAll, ret, await, raised⟩ := hi
+  constructor <;> simp only [] <;> try (first | assumption | grind [inSolve])
+
+theorem inv_getExnExit (s : State) (hi : Inv cfg s) (i : Nat) (e : Exn) (q : List Msg) (hp : s.p = .waiting)
+    (he : cfg.eoe = true) (hq : s.queue = .exn i e :: q) :
+    Inv cfg { s with queue := q, p := .killAll (.member i e) 0 } := by
+  obtain ⟨len, chan, queue, putting, wServing, wQueued, wAnswer, wRaise, kLosers, kAll, ret, await, raised⟩ := hi
+  constructor <;> simp only [] <;> try (first | assumption | grind [inSolve])
+  case kAll =>
+    intro e' k h
+    simp at h; obtain ⟨rfl, rfl⟩ := h
+    have hmem : Msg.exn i e ∈ s.queue := by rw [hq]; exact List.mem_cons_self
+    have := queue _ hmem
+    exact ⟨⟨he, this.1, this.2⟩, by intro j hj; omega⟩
+
+theorem inv_allDead (s : State) (hi : Inv cfg s) (hp : s.p = .waiting) (hq : s.queue = [])
+    (hd : ∀ m ∈ s.ms, alive m = false) : Inv cfg { s with p := .raised .allFailed } := by
+  obtain ⟨len, chan, queue, putting, wServing, wQueued, wAnswer, wRaise, kLosers, kAll, ret, await, raised⟩ := hi
+  have hd' : ∀ (j : Nat) m, s.ms[j]? = some m → alive m = false :=
+    fun j m h => hd m (List.mem_iff_getElem?.mpr ⟨j, h⟩)
+  constructor <;> simp only [] <;> try (first | assumption | grind [inSolve])
+  case raised =>
+    intro e h
+    simp at h; subst h
+    refine ⟨⟨?_, ?_⟩, hd'⟩
+    · intro i hi v hb
+      obtain ⟨m, h1, h2⟩ := wAnswer hp i hi v hb
+      rw [hd' i m h1] at h2; simp at h2
+    · intro he i hi e hb
+      rcases wRaise hp he i hi e hb with ⟨m, h1, h2⟩ | h
+      · rw [hd' i m h1] at h2; simp at h2
+      · rw [hq] at h; simp at h
+
+theorem kill_ne_putting (os : OS) (m : MSt) (m' : Msg) (h : kill os m = .putting m') : False := by
+  cases m <;> cases hk : os.killAtomic <;> simp [kill, hk] at h
+
+theorem inv_killLoser (s : State) (hi : Inv cfg s) (v : Bool) (w k : Nat) (hp : s.p = .killLosers v w k)
+    (hk : k < s.ms.length) :
+    Inv cfg { s with ms := if k = w then s.ms else s.ms.modify k (kill cfg.os), p := .killLosers v w (k + 1) } := by
+  obtain ⟨len, chan, queue, putting, wServing, wQueued, wAnswer, wRaise, kLosers, kAll, ret, await, raised⟩ := hi
+  constructor <;> simp only [] <;> try (first | assumption | grind [inSolve])
+  case putting =>
+    intro j m h
+    split at h
+    · exact putting j m h
+    · rcases get_modify_cases _ h with ⟨_, a, _, h2⟩ | ⟨_, h2⟩
+      · exact absurd h2.symm (fun h' => kill_ne_putting _ _ _ h')
+      · exact putting j m h2
+
+theorem inv_killLosersDone (s : State) (hi : Inv cfg s) (v : Bool) (w k : Nat) (hp : s.p = .killLosers v w k) :
+    Inv cfg { s with p := .returned v w } := by
+  obtain ⟨len, chan, queue, putting, wServing, wQueued, wAnswer, wRaise, kLosers, kAll, ret, await, raised⟩ := hi
+  constructor <;> simp only [] <;> try (first | assumption | grind [inSolve])
+  all_goals trace_state
+  all_goals sorry
+
+theorem inv_killAllStep (s : State) (hi : Inv cfg s) (e : Err) (k : Nat) (hp : s.p = .killAll e k)
+    (hk : k < s.ms.length) :
+    Inv cfg { s with ms := s.ms.modify k (kill cfg.os), p := .killAll e (k + 1) } := by
+  obtain ⟨len, chan, queue, putting, wServing, wQueued, wAnswer, wRaise, kLosers, kAll, ret, await, raised⟩ := hi
+  constructor <;> simp only [] <;> try (first | assumption | grind [inSolve])
+  case putting =>
+    intro j m h
+    rcases get_modify_cases _ h with ⟨_, a, _, h2⟩ | ⟨_, h2⟩
+    · exact absurd h2.symm (fun h' => kill_ne_putting _ _ _ h')
+    · exact putting j m h2
+  case kAll =>
+    intro e' k' h
+    simp at h; obtain ⟨h1, h2⟩ := h; subst h1 h2
+    refine ⟨(kAll e k hp).1, ?_⟩
+    intro j hj m h
+    rcases get_modify_cases _ h with ⟨_, a, _, h2⟩ | ⟨hne, h2⟩
+    · subst h2; exact alive_kill _ _
+    · exact (kAll e k hp).2 j (by omega) m h2
+
+theorem inv_killAllDone (s : State) (hi : Inv cfg s) (e : Err) (k : Nat) (hp : s.p = .killAll e k)
+    (hk : s.ms.length ≤ k) : Inv cfg { s with p := .raised e } := by
+  obtain ⟨len, chan, queue, putting, wServing, wQueued, wAnswer, wRaise, kLosers, kAll, ret, await, raised⟩ := hi
+  constructor <;> simp only [] <;> try (first | assumption | grind [inSolve])
+  case raised =>
+    intro e' h
+    simp at h; subst h
+    refine ⟨(kAll e k hp).1, ?_⟩
+    intro j m h
+    exact (kAll e k hp).2 j (by have := get_lt h; omega) m h
+
+theorem inv_recvReply (s : State) (hi : Inv cfg s) (v : Bool) (w q j q' : Nat) (r : List (Nat × Nat))
+    (hp : s.p = .awaiting v w q) (hr : s.reply = (j, q') :: r) :
+    Inv cfg { s with reply := r, p := .returned v w, served := s.served ++ [(j, q')] } := by
+  obtain ⟨len, chan, queue, putting, wServing, wQueued, wAnswer, wRaise, kLosers, kAll, ret, await, raised⟩ := hi
+  constructor <;> simp only [] <;> try (first | assumption | grind [inSolve])
+  all_goals trace_state
+  all_goals sorry
+
+theorem inv_fresh (s : State) : Inv cfg (fresh cfg s) := by
+  constructor <;> simp only [fresh] <;> try (first | assumption | grind [inSolve])
+  case wAnswer =>
+    intro _ i hi v _
+    exact ⟨.solving, by simp [hi], rfl⟩
+  case wRaise =>
+    intro _ _ i hi e _
+    exact Or.inl ⟨.solving, by simp [hi], rfl⟩
+
+theorem inv_ask (s : State) (hi : Inv cfg s) (v : Bool) (w q : Nat) (hp : s.p = .returned v w) :
+    Inv cfg { s with ctrl := s.ctrl ++ [.query q], p := .awaiting v w q } := by
+  obtain ⟨len, chan, queue, putting, wServing, wQueued, wAnswer, wRaise, kLosers, kAll, ret, await, raised⟩ := hi
+  constructor <;> simp only [] <;> try (first | assumption | grind [inSolve])
+  all_goals trace_state
+  all_goals sorry
+
+theorem inv_istep (s t : State) (hi : Inv cfg s) (h : IStep cfg s t) : Inv cfg t := by
+  cases h with
+  | finish i hm => exact inv_finish cfg s hi i hm
+  | flush i m hm => exact inv_flush cfg s hi i m hm
+  | recvExit i cs hm hc => exact inv_recvExit cfg s hi i cs hm hc
+  | recvQuery i q cs hm hc => exact inv_recvQuery cfg s hi i q cs hm hc
+  | lateRecv i c cs _ hm hc => exact inv_lateRecv cfg s hi i c cs hm hc
+  | getAns i v q hp hq => exact inv_getAns cfg s hi i v q hp hq
+  | getExnSkip i e q hp he hq => exact inv_getExnSkip cfg s hi i e q hp he hq
+  | getExnExit i e q hp he hq => exact inv_getExnExit cfg s hi i e q hp he hq
+  | allDead hp hq hd => exact inv_allDead cfg s hi hp hq hd
+  | killLoser v w k hp hk => exact inv_killLoser cfg s hi v w k hp hk
+  | killLosersDone v w k hp _ => exact inv_killLosersDone cfg s hi v w k hp
+  | killAllStep e k hp hk => exact inv_killAllStep cfg s hi e k hp hk
+  | killAllDone e k hp hk => exact inv_killAllDone cfg s hi e k hp hk
+  | recvReply v w q j q' r hp hr => exact inv_recvReply cfg s hi v w q j q' r hp hr
+
+theorem inv_ustep (s t : State) (hi : Inv cfg s) (h : UStep cfg s t) : Inv cfg t := by
+  cases h with
+  | solveStart _ => exact inv_fresh cfg s
+  | ask v w q hp => exact inv_ask cfg s hi v w q hp
+  | edit _ => exact hi
+
+theorem inv_step (s t : State) (hi : Inv cfg s) (h : Step cfg s t) : Inv cfg t := by
+  cases h with
+  | internal h => exact inv_istep cfg s t hi h
+  | user h => exact inv_ustep cfg s t hi h
+
+theorem inv_reach (s : State) (h : Reach cfg s) : Inv cfg s := by
+  induction h with
+  | init => exact inv_init cfg
+  | step s t _ hst ih => exact inv_step cfg s t ih hst
 
 end PySMT.Portfolio
